@@ -11,6 +11,7 @@ package main
 
 import (
 	"fmt"
+	"go/constant"
 	"go/token"
 	"go/types"
 	"sort"
@@ -33,7 +34,7 @@ func init() {
 		Title: "Length-delimited framing round-trips any message sequence and enforces its bound",
 		Explanation: "Decides, on the type-checked SSA of the ReadMsg/WriteMsg methods of the types returned by protoio.NewDelimitedReader/Writer and NewUint32DelimitedReader/Writer (and the module functions they call statically): " +
 			"(D1) the reader's limit is the constructor's size parameter stored unchanged; every success return that follows the decoding of a length prefix passes the within-limit side of a comparison `prefix <= limit` made on an image of the prefix (exact operator: a frame of exactly the limit is accepted, limit+1 rejected; the exceeding side reaches only error returns); every make/slice/size-taking call whose operand derives from the prefix is dominated by the within side of an upper-bound comparison and the operand is provably non-negative (unsigned type, widening from unsigned, or a dominating sign test) — evaluated for int=64 and int=32; " +
-			"(D2) no integer conversion between the decoded prefix (or the limit) and a comparison/use narrows the value before it has been bounded, for int=64 and int=32; " +
+			"(D2) no integer conversion between the decoded prefix (or the limit) and a comparison/use narrows the value before it has been bounded, for int=64 and int=32; when the prefix is decoded by a module function of the uvarint shape (ReadByte in a loop, byte masked with 0x7f, shift growing by 7) instead of binary.ReadUvarint, a call to it counts as the prefix decode for D1/D5 and the function is evaluated over a finite domain of byte classes and positions (absint.go; nothing is executed): more than 10 bytes, a 10th byte above 1, an endless run of continuation bytes and a ReadByte error must all end in an error return, as in binary.ReadUvarint — otherwise bits are shifted out and the length compared is a truncation of the wire prefix; " +
 			"(D3) the error of every decode/read/write/marshal call in the reader and writer paths is tested with a failing side that reaches only error returns, or is returned; the bytes given to proto.Unmarshal are exactly the bytes of a preceding full read whose success dominates the decode; every success return of ReadMsg passes the nil-error side of that decode; " +
 			"(D4) the reader obtains bytes only through chunk-agnostic calls (io.ReadFull, io.ReadAtLeast with min=len(buf), binary.ReadUvarint/ReadByte on the buffered reader), never a bare Read (a Read inside a loop that uses the count is accepted with a note); the object those calls read from is resolved from what the constructors store in the reader's field: a library type (bufio.Reader, ...) or the caller's reader as given is accepted (a caller-supplied io.ByteReader picked up by a type assertion is noted), while for a module type the ReadByte/Read method the library call will invoke must itself honour the io.Reader contract — every bare Read in it uses the byte count and no return on the error side is reached before the count has been examined (bytes delivered together with io.EOF must not be lost); " +
 			"(D5) writer and reader of one pair use the same prefix codec family and width, the same byte-order source, the reader reads exactly the prefix width, and on the writer's marshal-then-write path the value encoded is len(body) of the very slice written after the prefix (prefix first). " +
@@ -435,17 +436,34 @@ type c18Side struct {
 	upper  map[ssa.Value][]*c18Guard
 	signs  map[ssa.Value][]*c18Sign
 	guards []*c18Guard
+	// module functions of the set recognised as hand-written uvarint decoders: a call to one
+	// is a prefix decode, like binary.ReadUvarint
+	decoders map[*ssa.Function]bool
 }
 
 func newC18Side(c *Ctx, root *ssa.Function, limit map[c18Field]bool) *c18Side {
 	s := &c18Side{c: c, w: c.W, root: root, limit: limit, inSet: map[*ssa.Function]bool{}, traces: map[ssa.Value]*c18Trace{},
-		upper: map[ssa.Value][]*c18Guard{}, signs: map[ssa.Value][]*c18Sign{}}
+		upper: map[ssa.Value][]*c18Guard{}, signs: map[ssa.Value][]*c18Sign{}, decoders: map[*ssa.Function]bool{}}
 	s.set = c18StaticClosure(root, 4)
 	for _, f := range s.set {
 		s.inSet[f] = true
 		c.analysed(f)
 	}
+	for _, f := range s.set {
+		if f != root && c18UvarintDecoderShape(f) {
+			s.decoders[f] = true
+		}
+	}
 	return s
+}
+
+// isSource: the call decodes a length prefix (library decoder or recognised module decoder).
+func (s *c18Side) isSource(cc *ssa.CallCommon) bool {
+	if _, _, ok := c18Source(cc); ok {
+		return true
+	}
+	cal := staticCallee(cc)
+	return cal != nil && s.decoders[cal]
 }
 
 // c18Source: call decodes an integer from wire bytes; idx is the result carrying it.
@@ -515,6 +533,10 @@ func (s *c18Side) walk(v ssa.Value, t *c18Trace, seen map[ssa.Value]bool, depth 
 		cc := call.Common()
 		if _, i, ok := c18Source(cc); ok && i == idx {
 			t.Wire = append(t.Wire, call)
+			return
+		}
+		if cal := staticCallee(cc); cal != nil && s.decoders[cal] && idx == 0 {
+			t.Wire = append(t.Wire, call) // the value a hand-written uvarint decoder returns is the prefix
 			return
 		}
 		pkg, _, name := c18CallInfo(cc)
@@ -1046,7 +1068,7 @@ func (s *c18Side) enforce(fn *ssa.Function, memo map[*ssa.Function]*c18Enf, busy
 			if !ok {
 				continue
 			}
-			if _, _, isSrc := c18Source(call.Common()); isSrc {
+			if s.isSource(call.Common()) {
 				e.HasSrc = true
 				// paths of interest start where the decode has succeeded
 				var acc []edge
@@ -1180,6 +1202,7 @@ func runC18(c *Ctx) {
 			c18Errors(c, s, true)
 			c18Chunking(c, s)
 			c18ByteSource(c, s)
+			c18ModuleDecoders(c, s)
 		}
 		// ---- writer side
 		var writers []*c18Side
@@ -1405,7 +1428,7 @@ func c18ReaderBounds(c *Ctx, s *c18Side, limit map[c18Field]bool) {
 		e := s.enforce(s.root, map[*ssa.Function]*c18Enf{}, map[*ssa.Function]bool{})
 		nsrc := 0
 		for _, fn := range s.set {
-			nsrc += len(callsIn(fn, func(_ string, cc *ssa.CallCommon) bool { _, _, ok := c18Source(cc); return ok }))
+			nsrc += len(callsIn(fn, func(_ string, cc *ssa.CallCommon) bool { return s.isSource(cc) }))
 		}
 		c.count("prefix_decodes", nsrc)
 		// the rejecting side must report, not crash
@@ -2054,6 +2077,291 @@ func c18Chunking(c *Ctx, s *c18Side) {
 	}
 }
 
+// ---------- D2 (continued): hand-written uvarint decoders ----------
+
+func c18IsReadByte(cc *ssa.CallCommon) bool {
+	_, _, name := c18CallInfo(cc)
+	sig := cc.Signature()
+	if name != "ReadByte" || sig.Params().Len() != 0 || sig.Results().Len() != 2 || !isErrorType(sig.Results().At(1).Type()) {
+		return false
+	}
+	b, ok := sig.Results().At(0).Type().Underlying().(*types.Basic)
+	return ok && b.Kind() == types.Uint8
+}
+
+// c18UvarintDecoderShape: fn returns (integer, error), calls ReadByte inside a loop, masks the
+// byte with 0x7f and shifts it by an amount that grows by 7 per iteration (a phi stepped by 7,
+// or 7 times a phi stepped by 1): the shape of binary.ReadUvarint.
+func c18UvarintDecoderShape(fn *ssa.Function) bool {
+	sig := fn.Signature
+	if fn.Blocks == nil || sig.Results().Len() != 2 || !isErrorType(sig.Results().At(1).Type()) {
+		return false
+	}
+	if _, ok := c18IntType(sig.Results().At(0).Type()); !ok {
+		return false
+	}
+	stepOf := func(p *ssa.Phi) int64 {
+		for _, e := range p.Edges {
+			bo, ok := e.(*ssa.BinOp)
+			if !ok || bo.Op != token.ADD {
+				continue
+			}
+			if k, ok := constInt(bo.Y); ok && bo.X == ssa.Value(p) {
+				return k
+			}
+			if k, ok := constInt(bo.X); ok && bo.Y == ssa.Value(p) {
+				return k
+			}
+		}
+		return 0
+	}
+	var step7, step1 []ssa.Value
+	readInLoop, mask := false, false
+	var shifts []*ssa.BinOp
+	for _, b := range fn.Blocks {
+		for _, in := range b.Instrs {
+			switch x := in.(type) {
+			case *ssa.Phi:
+				switch stepOf(x) {
+				case 7:
+					step7 = append(step7, x)
+				case 1:
+					step1 = append(step1, x)
+				}
+			case *ssa.Call:
+				if c18IsReadByte(x.Common()) {
+					for _, sc := range b.Succs {
+						if reach(sc, nil)[b] {
+							readInLoop = true
+						}
+					}
+				}
+			case *ssa.BinOp:
+				switch x.Op {
+				case token.SHL:
+					shifts = append(shifts, x)
+				case token.AND:
+					if k, ok := constInt(x.Y); ok && k == 0x7f {
+						mask = true
+					}
+					if k, ok := constInt(x.X); ok && k == 0x7f {
+						mask = true
+					}
+				}
+			}
+		}
+	}
+	if !readInLoop || !mask {
+		return false
+	}
+	for _, sh := range shifts {
+		for _, p := range step7 {
+			if c18DerivesFrom(sh.Y, p, 0) {
+				return true
+			}
+		}
+		// 7*i
+		var visit func(v ssa.Value, d int) bool
+		visit = func(v ssa.Value, d int) bool {
+			if d > 4 {
+				return false
+			}
+			switch x := v.(type) {
+			case *ssa.Convert:
+				return visit(x.X, d+1)
+			case *ssa.BinOp:
+				if x.Op == token.MUL {
+					kx, okx := constInt(x.X)
+					ky, oky := constInt(x.Y)
+					other := x.X
+					if okx {
+						other = x.Y
+					}
+					if (okx && kx == 7) || (oky && ky == 7) {
+						for _, p := range step1 {
+							if c18DerivesFrom(other, p, 0) {
+								return true
+							}
+						}
+					}
+				}
+			}
+			return false
+		}
+		if visit(sh.Y, 0) {
+			return true
+		}
+	}
+	return false
+}
+
+type c18ByteEv struct {
+	B   int64
+	Err bool
+}
+
+// c18RunDecoder evaluates fn abstractly (absint.go, finite domain: the k-th ReadByte yields the
+// k-th scripted byte class representative or an error; counters are constants, everything else
+// is unknown) and classifies every path: ok | err | unknown | truncated | panic.
+func c18RunDecoder(w *World, fn *ssa.Function, script []c18ByteEv, endless *c18ByteEv) map[string]int {
+	ev := &Evaluator{W: w}
+	ev.Cfg = EvalConfig{
+		MaxDepth:  3,
+		MaxVisits: 64,
+		Inline:    func(f *ssa.Function) bool { return inModule(f) },
+		Interesting: func(_ string, cc *ssa.CallCommon) bool {
+			return c18IsReadByte(cc)
+		},
+		Call: func(_ *Evaluator, st *pstate, key string, cc *ssa.CallCommon, _ []AVal) ([]AVal, bool) {
+			if c18IsReadByte(cc) {
+				n := 0
+				for _, e := range st.trace {
+					if e.Site != nil && c18IsReadByte(e.Site.Common()) {
+						n++
+					}
+				}
+				item := c18ByteEv{Err: true}
+				switch {
+				case n-1 < len(script):
+					item = script[n-1]
+				case endless != nil:
+					item = *endless
+				}
+				bt := types.Typ[types.Uint8]
+				if item.Err {
+					return []AVal{aConst{V: constant.MakeInt64(0), T: bt}, aNonNil{Tag: "read error"}}, true
+				}
+				return []AVal{aConst{V: constant.MakeInt64(item.B), T: bt}, aNil{}}, true
+			}
+			switch key {
+			case "fmt.Errorf", "errors.New":
+				return []AVal{aNonNil{Tag: key}}, true
+			}
+			return nil, false
+		},
+	}
+	out := map[string]int{}
+	errIdx := errResultIndex(fn.Signature)
+	for _, o := range ev.Eval(fn, ev.SymbolicArgs(fn)) {
+		switch o.Kind {
+		case "return":
+			if errIdx < 0 || errIdx >= len(o.Results) {
+				out["unknown"]++
+				continue
+			}
+			switch e := o.Results[errIdx].(type) {
+			case aNil:
+				out["ok"]++
+			case aNonNil, aPtr, aFunc:
+				out["err"]++
+			case aIface:
+				if _, isNil := e.V.(aNil); isNil && e.T == nil {
+					out["ok"]++
+				} else {
+					out["err"]++
+				}
+			default:
+				out["unknown"]++
+			}
+		default:
+			out[o.Kind]++
+		}
+	}
+	return out
+}
+
+// c18ModuleDecoders judges every recognised hand-written uvarint decoder of the reader against
+// the acceptance set of binary.ReadUvarint: at most 10 bytes, the 10th at most 1, read errors
+// reported. Scenarios range over byte classes (continuation 0x80/0xff, final 0x00/0x01/0x02/0x7f)
+// and positions; nothing is executed, the SSA is evaluated over this finite domain.
+func c18ModuleDecoders(c *Ctx, s *c18Side) {
+	var fns []*ssa.Function
+	for _, f := range s.set {
+		if s.decoders[f] {
+			fns = append(fns, f)
+		}
+	}
+	for _, fn := range fns {
+		construct := fnName(fn) + "+uvarint-overflow"
+		nEval := 0
+		run := func(script []c18ByteEv, endless *c18ByteEv) map[string]int {
+			nEval++
+			return c18RunDecoder(c.W, fn, script, endless)
+		}
+		// sanity: the model must be able to follow the decoder at all
+		if r := run([]c18ByteEv{{B: 5}}, nil); r["ok"] == 0 || r["truncated"] > 0 {
+			c.undecided("D2", construct, fn.Pos(), "hand-written prefix decoder: the evaluator cannot follow it on a one-byte prefix (%v); its overflow handling is not decided", r)
+			continue
+		}
+		var late, tenth, unbounded, errLost, crash []string
+		accepts := func(r map[string]int) bool { return r["ok"] > 0 || r["unknown"] > 0 }
+		for _, cont := range []int64{0x80, 0xff} {
+			rep := func(k int, tail ...c18ByteEv) []c18ByteEv {
+				var sc []c18ByteEv
+				for i := 0; i < k; i++ {
+					sc = append(sc, c18ByteEv{B: cont})
+				}
+				return append(sc, tail...)
+			}
+			// the 10th byte carries bit 63 only
+			for _, t := range []int64{0x02, 0x7f} {
+				r := run(rep(9, c18ByteEv{B: t}), nil)
+				if accepts(r) {
+					tenth = append(tenth, fmt.Sprintf("0x%02x×9 0x%02x", cont, t))
+				}
+				if r["panic"] > 0 {
+					crash = append(crash, fmt.Sprintf("0x%02x×9 0x%02x", cont, t))
+				}
+			}
+			// more than 10 bytes
+			for k := 10; k <= 12; k++ {
+				for _, t := range []int64{0x00, 0x01, 0x7f} {
+					r := run(rep(k, c18ByteEv{B: t}), nil)
+					if accepts(r) {
+						late = append(late, fmt.Sprintf("0x%02x×%d 0x%02x", cont, k, t))
+					}
+					if r["panic"] > 0 {
+						crash = append(crash, fmt.Sprintf("0x%02x×%d 0x%02x", cont, k, t))
+					}
+				}
+			}
+			// no end
+			if r := run(nil, &c18ByteEv{B: cont}); r["truncated"] > 0 || accepts(r) {
+				unbounded = append(unbounded, fmt.Sprintf("0x%02x repeated", cont))
+			}
+			// read errors
+			for k := 0; k <= 10; k++ {
+				if r := run(rep(k, c18ByteEv{Err: true}), nil); accepts(r) {
+					errLost = append(errLost, fmt.Sprintf("error at byte %d", k+1))
+				}
+			}
+		}
+		c.count("decoder_scenarios", nEval)
+		var bad []string
+		if len(unbounded) > 0 {
+			bad = append(bad, "the number of prefix bytes is not bounded: an endless run of continuation bytes ("+strings.Join(c18Uniq(unbounded), ", ")+") is consumed without an error")
+		}
+		if len(late) > 0 {
+			bad = append(bad, fmt.Sprintf("overflow of the shift is not rejected: prefixes of more than 10 bytes are accepted, the bits of the groups past bit 63 are shifted out (%d cases, e.g. %s decodes with a nil error)", len(late), late[0]))
+		}
+		if len(tenth) > 0 {
+			bad = append(bad, "a 10th byte above 1 is accepted although it carries bits beyond 2^64 (e.g. "+tenth[0]+"): the value wraps")
+		}
+		if len(errLost) > 0 {
+			sort.Strings(errLost)
+			bad = append(bad, "a ReadByte error is turned into a successful decode ("+strings.Join(c18Uniq(errLost), ", ")+")")
+		}
+		if len(crash) > 0 {
+			bad = append(bad, "an explicit panic is reachable on an over-long prefix (e.g. "+crash[0]+")")
+		}
+		if len(bad) == 0 {
+			c.ok("D2", construct, fn.Pos(), "hand-written uvarint decoder evaluated on %d byte-class scenarios: more than 10 bytes, a 10th byte above 1, an endless run of continuation bytes and read errors all end in an error return", nEval)
+		} else {
+			c.fail("D2", construct, fn.Pos(), "hand-written uvarint decoder accepts malformed prefixes that binary.ReadUvarint rejects, so the length compared with the limit is a truncation of what is on the wire: %s", strings.Join(bad, "; "))
+		}
+	}
+}
+
 // ---------- D4 (continued): what the byte-obtaining calls read from ----------
 
 // c18Dyn describes the objects a stream value may hold at run time.
@@ -2521,6 +2829,12 @@ func (s *c18Side) codecs(writer bool, orderFields map[c18Field]bool) []c18Codec 
 				}
 				cc := ci.Common()
 				pkg, recv, name := c18CallInfo(cc)
+				if cal := staticCallee(cc); !writer && cal != nil && s.decoders[cal] {
+					// hand-written decoder of the uvarint shape (7 bits per byte, low group first);
+					// its overflow handling is judged by D2
+					out = append(out, c18Codec{Call: ci, Fn: fn, Family: "uvarint"})
+					continue
+				}
 				if pkg != "encoding/binary" {
 					continue
 				}
